@@ -114,8 +114,10 @@ CLAIMS = {
               "fixed: F27. 'Committed entries survive and all nodes converge' is Raft's guarantee given the storage contract "
               "(C02-C05, C07); async-raft itself is trusted."),
         note=("partial: the multi-node part (kills, restarts, leader changes, SetTmpValue ordering on followers) is not "
-              "proved; it is Raft's guarantee plus runtime behaviour. A 3-process exploration is planned for the thorough "
-              "tier; until it exists the claim covers the acknowledgement truthfulness and the storage contract only"),
+              "proved; it is Raft's guarantee plus runtime behaviour, explored on real 3-process clusters: two directed "
+              "scenarios in both tiers (the same key written through every node; the leader killed and followers written to "
+              "before the election), random fault scenarios in the thorough tier; the standalone node is also driven through "
+              "handle_route, the leader's side of a forwarded write (rpub / rdel)"),
         technique="translator-regenerated call-site table + Lean 4 theorem (decision model of the answer) + differential correspondence on a real standalone node"),
     "C07": dict(
         category="proof",
@@ -132,7 +134,9 @@ CLAIMS = {
         note=("trusted: Lean kernel; translator (purpose-built recogniser of raftdata.rs, fails on unknown shapes); the "
               "components are parameters of the theorems (their own rules: C09, C19, ...); harness follows async-raft's call "
               "order; MCP/cache requests covered by the table theorem only; 1 open finding F23 (node-local priority "
-              "metadata of persistent instances)"),
+              "metadata of persistent instances) and F32 (a namespace AddOnly/Update overtakes the asynchronous creation of the "
+              "namespace's entry on the follower path); the dump also holds what is *served* for user namespaces, the "
+              "membership and node addresses, and one node draws history ids like a leader (reqd)"),
         technique="translator-regenerated tables + Lean 4 theorem (kernel-evaluated table equality, refinement for any component semantics) + differential correspondence across three real nodes"),
     "C01": dict(
         category="proof",
@@ -143,7 +147,8 @@ CLAIMS = {
               "(config_value_roundtrip, get_after_snapshot_load, publish/update/import_snapshotable; temporary values as a "
               "visible caveat) and is a hypothesis for the other six components, checked by the correspondence: node R is "
               "compacted, restarted, killed, compacted-and-interrupted at arbitrary points and must dump the same served "
-              "state as node L that never stops. Found and fixed this way: F22 (stale tail of an interrupted snapshot "
+              "state as node L that never stops (component snapshot records, served configurations, served user namespaces, "
+              "history ids drawn by the node itself). Found and fixed this way: F22 (stale tail of an interrupted snapshot "
               "resurrects deleted items)."),
         note=("trusted: as C07; partial by construction: only the configuration component's encoder is modelled; the other "
               "components are compared through their own snapshot encoding and the configuration queries; normType "
@@ -263,7 +268,9 @@ CLAIMS = {
               "every node compared after settling; directed scenarios: a rolling replacement through every node, heart-beating "
               "clients of which one deregisters right after a beat - compared after the owner's next heartbeat flush)."),
         note=("partial: safety form of convergence only; 'eventually', node-death detection and gRPC-held instances are not "
-              "proved (no gRPC clients in the scenarios); the model is hand-written and tied to the code only through the "
+              "proved - they are exercised by directed scenarios (gRPC clients = the nacos_rust_client crate: the node a client "
+              "is connected to is killed, a node that learned the instances by snapshot must drop them too; class flips; "
+              "heartbeat flush); the model is hand-written and tied to the code only through the "
               "cluster scenarios' agreement oracle; observed: a register/deregister/register of one persistent instance "
               "issued back to back can lose the last registration on every node (the nodes agree) - recorded in DESIGN.md"),
         technique="Lean 4 theorem (invariant over all interleavings of a message-level model) + real 3-process cluster scenarios with an agreement oracle"),
